@@ -12,7 +12,7 @@ N = int(sys.argv[1]) if len(sys.argv) > 1 else 500
 stats = Counter(); t0 = time.time()
 for s in range(N):
     rng = rng_for("probe", s)
-    it = gen_mol.build_item(rng, weights=(s % 2 == 0), hyper=("S", "P", "N") if s % 3 else (), explicit_h=(s % 4 == 1),
+    it = gen_mol.build_item(rng, weights=(s % 2 == 0), hyper=(("S", "P", "N", "exotic") if s % 2 else ("S", "P", "N")) if s % 3 else (), explicit_h=(s % 4 == 1),
                             n_leaves=rng.randint(1, 16) if s % 5 == 0 else None, size=rng.randint(20, 45) if s % 5 == 0 else None,
                             components=rng.choice([2, 3]) if s % 7 == 0 else 1)
     r = admit.admit(it)
